@@ -243,12 +243,18 @@ func (conn *Conn) send(call *Call) {
 	err := conn.codec.WriteRequest(&ctx, call.Args)
 	if err != nil {
 		conn.mutex.Lock()
-		delete(conn.pending, seq)
-		if call.upgrade.Stream == openStream {
-			delete(conn.streams, seq)
+		// The call is completed here only if it is still this send's to complete: the reader may
+		// already have completed it (connection shut down, or its response processed).
+		owned := isStreaming
+		if c, ok := conn.pending[seq]; ok && c == call && !conn.shutdown {
+			delete(conn.pending, seq)
+			if call.upgrade.Stream == openStream {
+				delete(conn.streams, seq)
+			}
+			owned = true
 		}
 		conn.mutex.Unlock()
-		if call != nil {
+		if owned {
 			call.Error = err
 			call.done()
 		}
